@@ -189,6 +189,19 @@ def classify(g, unit, diags):
                         break
             if marker:
                 break
+        if marker is None and 'postcondition' in msg and clause is None:
+            # the failed clause is a trait-level `ensures` in a prelude (e.g. codeq::Decode::decode): its marker sits on the secondary span
+            for s_ in spans:
+                if s_.get('is_primary'):
+                    continue
+                for ln_ in range(s_['line_start'], s_['line_end'] + 1):
+                    if 0 < ln_ <= len(g.out.lines):
+                        mk = re.search(r'/\*\[([A-Z0-9, ]+?)\s+([\w.-]+)\]\*/', g.out.lines[ln_ - 1])
+                        if mk:
+                            marker = ([t for t in re.split(r'[ ,]+', mk.group(1)) if t], mk.group(2))
+                            break
+                if marker:
+                    break
         prim_ghost = False
         for s_ in prim:
             info = g.out.map[s_['line_start'] - 1] if 0 < s_['line_start'] <= len(g.out.map) else None
